@@ -65,7 +65,18 @@ def families(tier, seed):
 
 
 def main():
-    chk = Check("C04", "exploration")
+    chk = Check("C04", "other")
+    # deductive core shared with C06: a vectorised edge variable is used un-indexed exactly for the identity selection
+    from checks import c06 as _c06
+    cache = {}
+
+    def fb():
+        if "r" not in cache:
+            cache["r"] = [dict(f, site="C04/_get_indexed_var_str") for f in _c06.indexed_var_native(chk)]
+        return cache["r"]
+    chk.run_contracts("contracts.c06", fallback={"*": fb})
+    for f in fb():
+        chk.report_failure(f)
     fam = families(chk.tier, chk.seed)
     jobs = [dict(c, vec=v) for c in fam for v in (False, True)]
     res = runner.run_cases(dispatch, jobs)
